@@ -15,7 +15,7 @@ EXPLANATION = (
     "parenthesisation decision of fmt_unary/fmt_binary evaluated on the extracted precedence tables must give a TFF-unitary operand; a Display "
     "impl that writes a connective between separately formatted parts (chained comparison -> ` & `) must be parenthesised whenever it is an "
     "operand (PRN-T-INLINE). NUM: negative numerals are rendered without overflow. PRE-1: every built-in identifier the printer can emit is "
-    "declared in the preamble with the arity / type it is emitted at. SHARED: the renaming of clashing symbols is the last step of every problem chain and uses one clash set for the whole problem (C09's obligations).")
+    "declared in the preamble with the arity / type it is emitted at. SHARED: the renaming of clashing symbols is the last step of every problem chain and uses one clash set for the whole problem (C09's obligations). SHARED: the preamble's axioms are true in the standard interpretation (C12 PRE-2).")
 UNDECIDED = ["equality of truth values of source formula and rendered text in all interpretations (needs a TPTP semantics for arbitrary terms)",
              "identifier clashes between user names and generated names: C09"]
 ASSUMPTIONS = ["TPTP v9 TFF syntax: <=>, =>, <= take unitary operands; & and | chain only with themselves; ~ and quantifiers take a unitary formula"]
